@@ -323,7 +323,7 @@ def load_known(pid):
 
 
 def write_replay(pid, v):
-    d = os.path.join(VERIF, "replays", pid)
+    d = os.path.join(os.environ.get("VERIF_REPLAY_DIR") or os.path.join(VERIF, "replays"), pid)
     os.makedirs(d, exist_ok=True)
     blob = json.dumps({"property": pid, "label": v["label"], "prop": v["prop"], "args": v["args"]},
                       sort_keys=True, ensure_ascii=True)
@@ -473,8 +473,9 @@ def main_check(pid, modname, tier, seed):
         "assumptions": getattr(mod, "ASSUMPTIONS", []),
         "wall_s": round(wall, 2), "violations": len(out_lines),
     }
-    os.makedirs(os.path.join(VERIF, "evidence"), exist_ok=True)
-    with open(os.path.join(VERIF, "evidence", pid + ".json"), "w") as f:
+    evdir = os.environ.get("VERIF_EVIDENCE_DIR") or os.path.join(VERIF, "evidence")
+    os.makedirs(evdir, exist_ok=True)
+    with open(os.path.join(evdir, pid + ".json"), "w") as f:
         json.dump(ev, f, indent=1, ensure_ascii=True, default=repr)
     print("%s %s: items=%d paths=%d reached=%d discharged=%d validated=%d mismatches=%d inconclusive=%d "
           "truncated=%d violations=%d queries=%d solver=%.1fs wall=%.1fs"
